@@ -19,7 +19,7 @@ TRUSTED = ["the Go-to-Lean translator extract/translate.go and its prelude Model
 ASSUMPTIONS = ["the file system does not change between the permission check and the open (check-then-open race is outside the quantifier)"]
 RULE = ("seeded rule lists from a pool (POSIX classes, prefixed/bare, allow/deny, invalid regex, catch-all) x users (ordinary, service) x "
         "paths over the tree (symlink to file/dir/link, dangling, loop, '..', relative, fifo, directory, /dev/null); ops c08.perm (real "
-        "HasFilePermission) and c08.cat (real session: which file contents are served); non-trivial = a tag")
+        "HasFilePermission) and c08.cat (real session: which file contents are served); non-trivial = a tag; unanchored rules (a literal in the middle or at the end of the path decides)")
 
 RULES = ["^@R/logs/.*", "!^@R/secret/.*", "readfiles:^@R/.*", "readfiles:!^@R/secret/[[:alpha:]]+$", "!^@R/secret/[[:alpha:]]+$",
          "^@R/logs/[[:alnum:]]+\\.log$", "^/dev/.*", "(", "readfiles:(", ".*", "!.*", "!^@R/link", "^@R/secret/s\\.txt$",
